@@ -5,6 +5,7 @@ import functools
 import itertools
 import math
 import operator
+import os
 import pathlib
 import pickle
 import random
@@ -670,9 +671,12 @@ class DiskDict:
             if len(k) > 1:
                 # ensure subparent directories exist
                 fname.parent.mkdir(parents=True, exist_ok=True)
-            # write file!
-            with open(fname, "wb+") as f:
+            # write file! n.b. to a temporary file first and then atomically
+            # move into place, so a crash can't leave a partial entry behind
+            ftmp = fname.with_name(f"{fname.name}.tmp{os.getpid()}")
+            with open(ftmp, "wb+") as f:
                 pickle.dump(v, f)
+            os.replace(ftmp, fname)
 
     def __getitem__(self, k):
         try:
